@@ -286,10 +286,14 @@ effective configuration – `cfg` with the member's own timeframe if it has one 
 same initial candles and fed the same chunks.
 
 Status.  `member_standalone` above proves it for every member without its own timeframe (given the
-no-collision / no-input-dependency hypothesis `TreeOK`, which the property presupposes).  Before the
+no-collision / no-input-dependency hypothesis `TreeOK`, which the property presupposes).  The members may
+equally be given as configuration dicts: by `settings_same_member` the `Member` registered for the dict
+`c.settings` is the `Member` of the object `c` (all 27 classes, domain `IndCfg.Valid`, exclusions witnessed),
+and by `dict_is_constructor` / `dict_is_amorph` ANY dict is built by the very keyword constructor a direct call
+runs – so the dict / settings construction forms add nothing to what is open.  Before the
 library's Heikin-Ashi repair the general statement was FALSE for Heikin-Ashi + a member timeframe (the
 member manager was built from already converted candles); the model now hands raw candles to a new
-member manager.  What is missing for members WITH a timeframe: that collapsing the default manager's
+member manager.  What is missing, and ONLY for members WITH a timeframe: that collapsing the default manager's
 processed candles equals collapsing the raw stream (C03's
 `Resample.run (Resample.run s ++ new) = Resample.run (s ++ new)`, plus the fill / lifespan interplay,
 which is not established: a Hexital-level `timeframe` AND a different member timeframe collapse twice). -/
@@ -364,6 +368,68 @@ example : (exA ∈ Hexital.dedupe [exB, exA] ∧ exA.tfName = none) ∧
   refine ⟨⟨?_, rfl⟩, ?_, ?_, ?_, ?_⟩
   · simp [Hexital.dedupe, exA, exB, mkTop, Ind.name, dset]
   all_goals decide +kernel
+
+/-- the dict forms.  `RSI(period=2)` as an object (`exB` is its member: `fullName … = "RSI_2"` by `#eval`;
+`String.replace` in `_internal_generate_name` does not reduce in the kernel, so the name stays symbolic here):
+it is in `Valid`, its `settings` are the dict written out, building that dict gives the object back and
+registers its member -/
+def exCfgB : Settings.IndCfg Int := { cls := .rsi 2 "close" }
+
+example : exCfgB.Valid ∧
+    exCfgB.settings
+      = [("indicator", .str "RSI"), ("round_value", .int 4), ("period", .int 2), ("input_value", .str "close")] ∧
+    Settings.build exCfgB.settings = .ok exCfgB ∧
+    (Settings.build exCfgB.settings >>= fun c => memberOf c "")
+      = .ok { tree := mkTop (.rsi 2 "close") (fullName (.rsi 2 "close" : Kind Int) {}) 4,
+              tfName := none, tfSecs := none } := by
+  refine ⟨by decide, rfl, settings_roundtrip _ (by decide), ?_⟩
+  rw [settings_same_member _ (by decide)]; rfl
+
+/-- an object with every kind of base field set (timeframe + fill, Heikin-Ashi, suffix) and an `Amorph`:
+both in `Valid`; tree and manager configuration survive the round trip -/
+def exCfgT : Settings.IndCfg Int :=
+  { cls := .ema "close" 3 (.int 2), timeframe := some "T5", timeframe_fill := true, candlestick_type := some .ha,
+    name_suffix := some "x" }
+
+def exCfgA : Settings.IndCfg Int :=
+  { cls := .amorph .rising [("indicator", .str "close"), ("length", .int 3)], round_value := 0 }
+
+example : exCfgT.Valid ∧
+    exCfgT.settings
+      = [("indicator", .str "EMA"), ("name_suffix", .str "x"), ("round_value", .int 4), ("timeframe", .str "T5"),
+         ("timeframe_fill", .bool true), ("candlestick_type", .str "HA"), ("input_value", .str "close"),
+         ("period", .int 3), ("smoothing", .int 2)] ∧
+    (Settings.build exCfgT.settings).map (fun c => c.toInd "") = .ok (exCfgT.toInd "") ∧
+    (Settings.build exCfgT.settings >>= fun c => c.mgrCfg) = exCfgT.mgrCfg :=
+  ⟨by decide, rfl, settings_same_tree _ (by decide) "", settings_same_manager _ (by decide)⟩
+
+example : exCfgA.Valid ∧
+    exCfgA.settings = [("analysis", .str "rising"), ("round_value", .int 0),
+      ("args", .dict [("indicator", .str "close"), ("length", .int 3)])] ∧
+    Settings.build exCfgA.settings = .ok exCfgA :=
+  ⟨by decide, rfl, settings_roundtrip _ (by decide)⟩
+
+/-- hypotheses of `dict_is_constructor` / `dict_unknown_keyword` / `dict_is_amorph` / `dict_missing_key` /
+`dict_falsy_key` on hand-written dicts (defaults filled in, MACD periods reordered, a misspelt keyword) -/
+example : Settings.build ([("indicator", .str "MACD"), ("fast_period", .int 30)] : Settings.SDict Int)
+    = Settings.construct Settings.clsMACD [("fast_period", .int 30)] ∧
+    Settings.construct Settings.clsMACD ([("fast_period", .int 30)] : Settings.SDict Int)
+      = .ok { cls := .macd 26 30 9 "close" } :=
+  ⟨dict_is_constructor _ "MACD" Settings.clsMACD rfl (by decide) (by decide) rfl, rfl⟩
+
+example : Settings.build ([("indicator", .str "EMA"), ("perod", .int 3)] : Settings.SDict Int) = .error .typeError :=
+  dict_unknown_keyword _ "EMA" Settings.clsEMA rfl (by decide) (by decide) rfl "perod" (.int 3) (by simp) (by decide)
+    (by decide)
+
+example : Settings.build ([("analysis", .str "doji"), ("round_value", .int 2)] : Settings.SDict Int)
+    = Settings.constructAmorph .doji [("round_value", .int 2)] :=
+  dict_is_amorph _ "doji" .doji rfl rfl (by decide) rfl
+
+example : Settings.build ([("period", .int 3)] : Settings.SDict Int) = .error .invalidConfig :=
+  dict_missing_key _ rfl rfl
+
+example : Settings.build ([("indicator", .str ""), ("analysis", .none)] : Settings.SDict Int) = .error .invalidConfig :=
+  dict_falsy_key _ rfl rfl
 
 end Examples
 
